@@ -662,4 +662,14 @@ theorem objectResults_relabel (uf : Bool) (fE fG : Obj → Obj) (ests gts : List
       simp only [List.map_cons, objectResults, hfam e0 (by simp), pairById_eq, pairTlr_eq, h1, h2]
       split <;> rfl
 
+/-! ## inputs inside the quantifier of C11 induce valuations consistent with `pairForb` -/
+
+/-- unique (uuid, camera) per side (at most 2 × 2 objects): no object agrees in uuid AND camera with both objects of the
+other side, so the valuation of the input avoids every clause of `pairForb` -/
+theorem valC_consistent (ests gts : List Obj) (hn : ests.length ≤ 2) (hm : gts.length ≤ 2)
+    (hE : (ests.map fun o => (o.uuid, o.frame)).Nodup) (hG : (gts.map fun o => (o.uuid, o.frame)).Nodup) :
+    consistent pairForb (valC ests gts) = true := by
+  rcases ests with _ | ⟨e0, _ | ⟨e1, _ | ⟨e2, es⟩⟩⟩ <;> rcases gts with _ | ⟨g0, _ | ⟨g1, _ | ⟨g2, gs⟩⟩⟩ <;>
+    simp [consistent, pairForb, Lit.holds, valC, aUuid, aFrame] at * <;> grind
+
 end PEval.ClassificationDT
